@@ -208,6 +208,75 @@ def _check_candidate(R, obs, rng, src, origin):
                     R.add_to("opcodes", o)
 
 
+def linked_split(R, obs, rng, label):
+    """accepted programs made of several modules (import chains, diamonds; generator of C16): compiling every module,
+    linking the roots (fresh loader / the linker's default loader) and running every exported root function must not fail
+    internally either"""
+    import os
+    import pickle
+    import shutil
+    import tempfile
+    from ..gen import modules as gmod
+    sp = gmod.gen(rng)
+    tmp = tempfile.mkdtemp(prefix="nslverif_c05_")
+    old = os.getcwd()
+    texts = {n: sp.layouts[n][0] for n in sp.layouts}
+    order = [n for n, _, _ in sp.libs] + [n for n, _, _, _ in sp.roots]
+    meta = {"sources": texts, "module_order": order, "roots": [n for n, _, _, _ in sp.roots]}
+    try:
+        os.chdir(tmp)
+        opt = bool(rng.getrandbits(1))
+        mods = {}
+        for name in [n for n, _, _ in sp.libs] + [n for n, _, _, _ in sp.roots]:
+            out = nslapi.compile_source(sp.layouts[name][0], optimize=opt)
+            R.count("split_modules_compiled")
+            if not out.accepted:
+                R.count("split_module_rejected(C16 territory)")
+                return
+            if out.post_exc is not None:
+                R.evaluations += 1
+                classify(R, sp.layouts[name][0], out.post_exc.get("stage", "post"), out.post_exc, None, dict(meta, module=name), opt)
+                return
+            if os.path.dirname(name):
+                os.makedirs(os.path.dirname(name), exist_ok=True)
+            with open(name + ".nslir", "wb") as f:
+                pickle.dump(out.ir, f)
+            mods[name] = out.ir
+        R.evaluations += 1
+        try:
+            with nslapi.quiet():
+                linker = nslapi.LinearIR.Linker() if rng.random() < 0.5 else nslapi.LinearIR.Linker(loader=nslapi.LinearIR.FilesystemModuleLoader())
+                for n, _, _, _ in sp.roots:
+                    linker.AddModule(mods[n])
+                program = linker.Link()
+        except Exception as e:
+            classify(R, texts[sp.roots[0][0]], "link", nslapi.exc_info(e), None, dict(meta), opt)
+            return
+        R.count("split_programs_linked")
+
+        class _C:
+            pass
+        comp = _C()
+        comp.program = program
+        for _, fs, _, gl in sp.roots:
+            for f in fs:
+                if not f.exported:
+                    continue
+                for x in (0, 3, -2):
+                    gl0 = {g[1]: 1 for _, _, _, gl2 in sp.roots for g in gl2}
+                    vm = diff.run_vm(comp, f.name, {"x": x}, gl0, obs, 150000)
+                    R.evaluations += 1
+                    R.count("vm_runs")
+                    R.count("split_vm_runs")
+                    if vm.status == "exception" and vm.exc["cls"] not in DROP and vm.exc["cls"] != "ZeroDivisionError":
+                        classify(R, texts[sp.roots[0][0]], "vm", vm.exc, vm.sig, dict(meta, function=f.name, inputs={"args": {"x": x}, "globals": gl0}), opt)
+                        return
+        R.nontriv("split", repr(sorted(texts.items())), opt)
+    finally:
+        os.chdir(old)
+        shutil.rmtree(tmp, ignore_errors=True)
+
+
 def run_shard(tier, seed, shard, n, R):
     obs = vmobs.Observer()
     rng = random.Random(seed * 7919 + shard)
@@ -225,6 +294,8 @@ def run_shard(tier, seed, shard, n, R):
             if i < 3:
                 R.sample({"origin": "seed", "source": s[:1200]})
     for j in range(BUDGET[tier]):
+        if j % 25 == 0:
+            linked_split(R, obs, random.Random((seed * 1000003 + shard) * 100000 + j), "split")
         r = rng.random()
         if r < 0.45:
             base = rng.choice(seeds)
@@ -262,7 +333,51 @@ def finalize(M, tier):
     return out
 
 
+def _replay_split(case):
+    import os
+    import pickle
+    import shutil
+    import tempfile
+    tmp = tempfile.mkdtemp(prefix="nslverif_c05r_")
+    old = os.getcwd()
+    try:
+        os.chdir(tmp)
+        mods = {}
+        for name in case["module_order"]:
+            out = nslapi.compile_source(case["sources"][name], optimize=bool(case.get("optimize")))
+            if not out.accepted:
+                return False, {"rejected": name}
+            if out.post_exc is not None:
+                return True, {"post": out.post_exc, "module": name}
+            if os.path.dirname(name):
+                os.makedirs(os.path.dirname(name), exist_ok=True)
+            with open(name + ".nslir", "wb") as f:
+                pickle.dump(out.ir, f)
+            mods[name] = out.ir
+        try:
+            linker = nslapi.LinearIR.Linker(loader=nslapi.LinearIR.FilesystemModuleLoader())
+            for n in case["roots"]:
+                linker.AddModule(mods[n])
+            program = linker.Link()
+        except Exception as e:
+            return True, {"link": nslapi.exc_info(e)}
+        if "function" not in case:
+            return False, {}
+
+        class _C:
+            pass
+        comp = _C()
+        comp.program = program
+        vm = diff.run_vm(comp, case["function"], case["inputs"]["args"], case["inputs"].get("globals", {}), vmobs.Observer(), 2000000)
+        return vm.status == "exception" and vm.exc["cls"] not in DROP and vm.exc["cls"] != "ZeroDivisionError", {"status": vm.status, "exc": vm.exc}
+    finally:
+        os.chdir(old)
+        shutil.rmtree(tmp, ignore_errors=True)
+
+
 def replay(case):
+    if "module_order" in case:
+        return _replay_split(case)
     src = case["sources"]["main"]
     comp = diff.Compiled(src, optimize=bool(case.get("optimize")))
     detail = {"gate": comp.out.gate, "post": comp.out.post_exc, "link": comp.link_exc}
